@@ -60,7 +60,8 @@ impl Number for i32 {
         lhs.checked_add(rhs)
     }
     fn checked_mul(lhs: Self, rhs: i32) -> Option<Self> {
-        lhs.checked_mul(rhs)
+        // TeX.2021.105: the result must be at most 2^31-1 in absolute value.
+        lhs.checked_mul(rhs).filter(|r| *r != i32::MIN)
     }
     fn wrapping_mul(lhs: Self, rhs: i32) -> Self {
         lhs.wrapping_mul(rhs)
